@@ -334,4 +334,13 @@ def voidLines (marks : List Bool) (lines : List Line) : List Line :=
 /-- the gap before a token is empty: no line break and no space -/
 def gapEmpty (t : FTok) : Bool := t.fmt.nl == 0 && t.fmt.sp == 0
 
+/-- kinds whose own `spaces_before` may survive their own rule of `TokenSpacing` (the rule leaves it alone or
+    clamps it): identifiers, literals and unknown tokens, `+`/`-` (when unary), `(`/`[`, the pointer-type `^` -/
+def keepsCur : Kind → Bool
+  | .tIdentifier => true
+  | .tOp .oPlus | .tOp .oMinus | .tOp .oLBrack | .tOp .oLParen | .tOp (.oCaret .caType) => true
+  | .tOp _ => false
+  | .tComment _ | .tCompilerDirective | .tConditionalDirective _ | .tKeyword _ => false
+  | _ => true
+
 end Pasfmt
